@@ -166,6 +166,7 @@ private:
     void opStatus(const Item& op);
     void opBuild(const Item& op);
     void opProbe(const Item& op);
+    void opStatUpd(const Item& op);
     void finish();
 };
 
